@@ -136,7 +136,7 @@ def run(tier, seed):
     v.cov["exhaustive"] = True
     v.cov["rule"] = ("layer 1: every transition of the API model (8 methods x message classes incl. stale / wrong / truncated / mis-tagged arguments, reuse after disconnect) "
                      "replayed on HandshakeStateMachine from its source state, for 4 parameter sets (empty / 300-byte non-ASCII cookies, 250-byte and UTF-8 names, all-ones / zero / "
-                     "random 64-bit flags, challenges 0, 2^31, 2^32-1); layer 2: all 65 peer scripts (each deviation at each of the peer's three turns) x 2 (quick) / 4 parameter sets "
+                     "random 64-bit flags, challenges 0, 2^31, 2^32-1); layer 2: all 85 peer scripts (each deviation at each of the peer's three turns) x 2 (quick) / 4 parameter sets "
                      "against Connection::connect over TCP; distinct = (parameter set, state, call) and (parameter set, script)")
     v.assumptions += ["MD5 itself is uninterpreted in the spec; digests are checked with python hashlib and an RFC 1321 transcription in the harness",
                       "handshake layouts transcribed from the distribution protocol document"]
